@@ -98,6 +98,53 @@ def dTie : Desc :=
    { id := "c", zone := "y", tokens := [3, 4294967294] }]
 example : ZoneRing { rf := 2, zoneAware := true } C01.opWrite dTie := ⟨by decide, rfl, by decide, by decide⟩
 
+/-! ### Beyond the quantified case: any operation, instances that extend the replica set
+
+Token ranges ignore instance state and health; `Ring.Get` does not. `ZoneRingAny`: well-formed, zone-aware,
+every instance in a zone (no assumption on states, health or the operation). `zoneHit op x y`: `y` is in
+`x`'s zone and either does not extend the replica set under `op` or is `x` itself. (`rf ≠ #zones` needs no
+statement: `GetTokenRangesForInstance` then returns the configuration error and claims nothing.) -/
+
+/-- **zone members of the walk, any operation**: `x` is in C01's full zone-aware walk iff the first instance
+met on the circle that is a `zoneHit` for `x` is `x`: a zone contributes its extending instances up to and
+including its first non-extending one. -/
+theorem walk_zone_members (cfg : C01.Cfg) (op : C01.Op) (d : Desc) (hz : ZoneRingAny cfg d) (key : Nat) (x : Inst) :
+    x ∈ C01.Sfull cfg op d key ↔ ((C01.circle d key).map (·.2)).find? (zoneHit op x) = some x :=
+  mem_Sfull_iff_gen cfg op d hz key x
+
+/-- the token-range owner (the owner of the first zone token after the key) is always in the full walk … -/
+theorem range_owner_always_walked (cfg : C01.Cfg) (op : C01.Op) (d : Desc) (hz : ZoneRingAny cfg d) (key : Nat) (x : Inst)
+    (hx : x ∈ d) (hl : lookupInZone d x.zone key = some x.id) : x ∈ C01.Sfull cfg op d key :=
+  lookup_owner_in_Sfull cfg op d hz key x hx hl
+
+/-- … if it does not extend the replica set it is the only instance of its zone there (ranges and `Get`
+agree on that zone, whatever the other zones look like) … -/
+theorem get_agrees_with_ranges_when_owner_does_not_extend (cfg : C01.Cfg) (op : C01.Op) (d : Desc)
+    (hz : ZoneRingAny cfg d) (key : Nat) (x : Inst) (hx : x ∈ d) (hl : lookupInZone d x.zone key = some x.id)
+    (hne : C01.extendsOn op x.state = false) (y : Inst) (hy : y ∈ C01.Sfull cfg op d key) (hzy : y.zone = x.zone) :
+    y = x :=
+  nonextending_owner_sole cfg op d hz key x hx hl hne y hy hzy
+
+/-- … and where the owner extends, the first non-extending instance of the zone is walked too, although the
+key lies outside its token ranges: exactly there the two notions of ownership diverge. -/
+theorem get_takes_next_instance_when_owner_extends (cfg : C01.Cfg) (op : C01.Op) (d : Desc) (hz : ZoneRingAny cfg d)
+    (key : Nat) (y : Inst)
+    (hfirst : ((C01.circle d key).map (·.2)).find? (fun z => z.zone == y.zone && !C01.extendsOn op z.state) = some y) :
+    y ∈ C01.Sfull cfg op d key :=
+  extending_owner_second_member cfg op d hz key y hfirst
+
+/-- WITNESS of the divergence (by design, not a defect): zone a holds token 10 of `A` (LEAVING) and token 20 of
+`B`, zone b token 15 of `C`; rf = 2. Key 5 is in `A`'s reported ranges and not in `B`'s, but `Get(5, Write)`
+walks `A, C, B` and returns `{C, B}`: `A` extends the replica set and is not healthy for `Write`. -/
+theorem ranges_vs_get_divergence_witness :
+    ZoneRingAny cfgDiverge dDiverge ∧
+    rangesForInstance dDiverge true 2 "A" = .ok [0, 9, 20, 4294967295] ∧ includesKey [0, 9, 20, 4294967295] 5 = true ∧
+    rangesForInstance dDiverge true 2 "B" = .ok [10, 19] ∧ includesKey [10, 19] 5 = false ∧
+    (C01.specWalked cfgDiverge C01.opWrite dDiverge 5).map (·.id) = ["A", "C", "B"] ∧
+    (C01.specGet cfgDiverge C01.opWrite dDiverge 5 0).ok = true ∧
+    (C01.specGet cfgDiverge C01.opWrite dDiverge 5 0).instances.map (·.id) = ["C", "B"] :=
+  ⟨⟨by decide, rfl, by decide⟩, diverge_ranges_A, by decide, diverge_ranges_B, by decide, diverge_get.1, diverge_get.2.1, diverge_get.2.2⟩
+
 /-! ### No inconsistent-token errors (link to C05: every reachable descriptor is well-formed) -/
 
 /-- For EVERY descriptor, configuration and instance id, `GetTokenRangesForInstance` never takes one of its
